@@ -16,7 +16,7 @@ SEEDED = os.environ.get("VERIF_SEEDED_DIR") or os.path.join(VERIF, "seeded")
 
 
 def import_new():
-    for pattern, prefix, tag in (("/tmp/wt_C*/out/mut*", "/tmp/wt_", ""), ("/tmp/wt2_C*/out/mut*", "/tmp/wt2_", "r2"), ("/tmp/wt3_C*/out/mut*", "/tmp/wt3_", "r3"), ("/tmp/wt4_C*/out/mut*", "/tmp/wt4_", "r4")):
+    for pattern, prefix, tag in (("/tmp/wt_C*/out/mut*", "/tmp/wt_", ""), ("/tmp/wt2_C*/out/mut*", "/tmp/wt2_", "r2"), ("/tmp/wt3_C*/out/mut*", "/tmp/wt3_", "r3"), ("/tmp/wt4_C*/out/mut*", "/tmp/wt4_", "r4"), ("/tmp/wt5_C*/out/mut*", "/tmp/wt5_", "r5")):
         for d in sorted(glob.glob(pattern)):
             pid = d.split("/")[2][len(prefix.split("/")[-1]):]
             name = "%s_%s%s" % (pid, tag, os.path.basename(d))
